@@ -304,6 +304,22 @@ def _add_evict(P, R):
         else:
             R.violate("c", "cap-loop:%s" % fn.short_name, "%s does not trim with `while events.len() > max_events { pop_front }` (strict)" % fn.short_name, fn)
     rec = P.one(TW + "::record")
+    # the cap may only cut events that are inside the window: out-of-window events must have been evicted before the cap is
+    # applied (otherwise the cap counts an event that is about to be evicted anyway and pops a younger live one instead)
+    evict = [c for c in rec.calls() if c.bb in rec.normal_blocks() and c.name.endswith(("VecDeque::retain", "VecDeque::retain_mut"))]
+    pushes = [c for c in rec.calls() if c.bb in rec.normal_blocks() and c.name.endswith(("VecDeque::push_back", "VecDeque::push_front"))]
+    cap_loops = [lp for lp in rec.loops() if any(c.bb in lp["body"] and c.name.endswith("VecDeque::pop_front") for c in rec.calls())
+                 and not any(c.bb in lp["body"] and c.name.endswith("VecDeque::front") for c in rec.calls())]
+    if evict and cap_loops:
+        bad = [lp for lp in cap_loops if not any(rec.dominates(e.bb, lp["header"]) for e in evict)]
+        # and nothing is pushed between the eviction and the cap
+        late_push = [p_ for p_ in pushes for lp in cap_loops if any(rec.dominates(e.bb, p_.bb) for e in evict) and rec.dominates(p_.bb, lp["header"]) is False and p_.bb in rec.reach([e.bb for e in evict])]
+        if bad:
+            R.violate("c", "cap-before-eviction:record", "record applies the retention cap before evicting out-of-window events: with cap 2, duration 5 and arrivals t=10, 6, 12 the cap pops the live event 10 and the eviction then drops 6, leaving [12] instead of [10, 12]", rec, rec.term(bad[0]["header"])[0])
+        else:
+            R.hold("c", "record evicts out-of-window events before applying the retention cap", fn=rec)
+    elif cap_loops and not evict:
+        R.note("record has a cap loop but no retain-style eviction (front-eviction form is judged by clause d)")
     st = [(bb, j, s) for (bb, j, s) in A.stores_to_field(rec, "start_time", TW) if j >= 0]
     if st and "saturating_sub(event.metadata.timestamp" in fmt_sym(rec.sym_rvalue(st[0][2][4]), maxdepth=8) and "as_millis(self.duration)" in fmt_sym(rec.sym_rvalue(st[0][2][4]), maxdepth=8):
         R.hold("c", "record: start_time = now.saturating_sub(duration_ms)", fn=rec)
